@@ -282,8 +282,8 @@ func (b *bare) run(in Input) (obs Obs) {
 			case "FORCE_ERROR":
 				// the sequence of the workflow-state watcher (subscribeToWfState)
 				opErr = env.TryTransition(anyTransition("GO_ERROR", op, rec, env))
-				if opErr != nil && env.CurrentState() != "ERROR" {
-					env.VerifC08SetState("ERROR")
+				if opErr != nil {
+					env.ForceError() // what the watcher and ControlEnvironment do when GO_ERROR fails
 				}
 			default:
 				opErr = env.TryTransition(anyTransition(op.Ev, op, rec, env))
